@@ -1,1 +1,1222 @@
-//! Semantic oracles (C07-C16): reference models.
+//! Semantic oracles (C07-C12, C14-C16): boring reference models evaluated on the trace.
+
+use super::*;
+use crate::world::{Op, Pred};
+use crate::worlds::CALL_NEXT;
+
+fn innermost_send(stack: &[Frame]) -> Option<&Frame> {
+    stack.iter().rev().find(|f| f.is_send)
+}
+fn innermost_puppet_send(stack: &[Frame]) -> Option<&Frame> {
+    stack.iter().rev().find(|f| f.is_send && matches!(f.actor, Actor::Sub(_)))
+}
+
+pub fn listfn(op: &Op, xs: &[i64]) -> Vec<i64> {
+    match op {
+        Op::Map => xs.iter().map(|x| x + 100).collect(),
+        Op::Filter(p) => xs.iter().copied().filter(|x| p.eval(*x)).collect(),
+        Op::Scan(seed) => {
+            let mut acc = *seed;
+            xs.iter()
+                .map(|x| {
+                    acc = acc * 10 + x;
+                    acc
+                })
+                .collect()
+        },
+        Op::Take(n) => xs.iter().copied().take(*n).collect(),
+        Op::Skip(n) => xs.iter().copied().skip(*n).collect(),
+        Op::Comp(outer, inner) => listfn(outer, &listfn(inner, xs)),
+        _ => panic!("listfn: not a unary operator"),
+    }
+}
+
+fn ival(v: &Val) -> i64 {
+    match v {
+        Val::I(x) => *x,
+        _ => i64::MIN,
+    }
+}
+
+/// C07: unary operators over a listenable source are incremental list functions.
+pub fn c07(spec: &WorldSpec, ex: &Exec) -> Option<Viol> {
+    let op = &spec.op;
+    let mut sent: Vec<i64> = vec![];
+    let mut got: Vec<i64> = vec![];
+    let mut found = None;
+    let mut probe_disposed = false;
+    let mut probe_term = 0u32;
+    let mut sub_stops = 0u32;
+    // frames of Data sends: (start, got.len() at start, disposed at start)
+    let mut open: Vec<(usize, usize, bool, u32, u32)> = vec![];
+    let take_n = if let Op::Take(n) = op { Some(*n) } else { None };
+    walk(ex, |i, ev, stack, _| {
+        if found.is_some() {
+            return;
+        }
+        match ev {
+            Ev::Send(Actor::Probe(_), m) if m.is_terminal() => probe_disposed = true,
+            Ev::Send(Actor::Sub(_), M::Data(v)) => {
+                sent.push(ival(v));
+                open.push((i, got.len(), probe_disposed, probe_term, sub_stops));
+            },
+            Ev::In(Actor::Sub(_), m) if m.is_terminal() => sub_stops += 1,
+            Ev::In(Actor::Probe(_), M::Data(v)) => {
+                got.push(ival(v));
+                match innermost_puppet_send(stack) {
+                    Some(fr) if fr.msg.is_data() => {},
+                    _ => {
+                        found = Some(viol(spec, "data-outside-upstream-delivery", i, format!("probe received {v:?} but no upstream Data delivery is in progress")));
+                    },
+                }
+            },
+            Ev::In(Actor::Probe(_), M::Term) => {
+                probe_term += 1;
+                let ok = match innermost_puppet_send(stack) {
+                    Some(fr) if fr.msg == M::Term => true,
+                    Some(fr) if fr.msg.is_data() => {
+                        // take: inside the delivery of the n-th accepted item
+                        take_n.map(|n| sent.len() == n).unwrap_or(false)
+                    },
+                    _ => false,
+                };
+                if !ok {
+                    found = Some(viol(spec, "completion-at-wrong-time", i, format!("probe completed although upstream has not completed (sent so far {:?})", sent)));
+                }
+            },
+            Ev::In(Actor::Probe(_), M::Err(_)) => {
+                let ok = matches!(innermost_puppet_send(stack), Some(fr) if matches!(fr.msg, M::Err(_)));
+                if !ok {
+                    found = Some(viol(spec, "error-at-wrong-time", i, "probe received an Error outside of an upstream Error delivery".into()));
+                }
+            },
+            Ev::Ret(Actor::Sub(_)) => {
+                let Some(fr) = stack.last() else { return };
+                match fr.msg {
+                    M::Data(_) => {
+                        let Some(pos) = open.iter().position(|o| o.0 == fr.start) else { return };
+                        let (_, got_before, disposed_before, term_before, stops_before) = open.remove(pos);
+                        let _ = (term_before, stops_before);
+                        // the probe's data equals listfn(sent so far)
+                        let want = listfn(op, &sent);
+                        if got != want {
+                            found = Some(viol(spec, "not-the-list-function", i, format!("after upstream sent {:?} the probe has {:?}, expected {:?}", sent, got, want)));
+                            return;
+                        }
+                        let _ = got_before;
+                        if let Some(n) = take_n {
+                            // the delivery of the n-th item: sink completed, upstream disposed (unless the sink left)
+                            if sent.len() == n && !disposed_before {
+                                let disposed_inside = probe_disposed;
+                                if !disposed_inside && probe_term != 1 {
+                                    found = Some(viol(spec, "take-did-not-complete-sink", i, format!("take({n}): the {n}-th item was delivered but the probe has {probe_term} Terminate")));
+                                    return;
+                                }
+                                if sub_stops != 1 {
+                                    found = Some(viol(spec, "take-did-not-dispose-upstream", i, format!("take({n}): after the {n}-th item upstream has received {sub_stops} stop messages")));
+                                }
+                            }
+                        }
+                    },
+                    M::Term => {
+                        if !probe_disposed && probe_term != 1 {
+                            found = Some(viol(spec, "completion-not-relayed", i, format!("upstream completed but the probe has {probe_term} Terminate")));
+                        }
+                    },
+                    _ => {},
+                }
+            },
+            _ => {},
+        }
+    });
+    if found.is_none() && ex.fault.is_none() && !ex.panicked {
+        let want = listfn(op, &sent);
+        if got != want {
+            return Some(viol(spec, "not-the-list-function", ex.trace.len().saturating_sub(1), format!("upstream sent {:?}, probe has {:?}, expected {:?}", sent, got, want)));
+        }
+    }
+    found
+}
+
+struct SubInfo {
+    greeted_at: Option<usize>,
+    sent_term: bool,
+    sent_err: bool,
+    stopped: bool,
+}
+
+fn over(s: &SubInfo) -> bool {
+    s.sent_term || s.sent_err || s.stopped
+}
+
+/// C08: merge! is the arrival-order union of its members.
+pub fn c08(spec: &WorldSpec, ex: &Exec) -> Option<Viol> {
+    let n = spec.op.arity();
+    let mut subs: Vec<SubInfo> = (0..ex.subs.len()).map(|_| SubInfo { greeted_at: None, sent_term: false, sent_err: false, stopped: false }).collect();
+    let mut p_over = false;
+    let mut p_greeted = false;
+    let mut p_term = 0u32;
+    let mut sent_live: Vec<Val> = vec![];
+    let mut got: Vec<Val> = vec![];
+    let mut greetings = 0u32;
+    // open probe Pull frames: (start, eligible subs, counts, output over during frame)
+    struct PullFrame {
+        start: usize,
+        eligible: Vec<u16>,
+        counts: std::collections::HashMap<u16, u32>,
+        ended_inside: bool,
+    }
+    let mut pulls: Vec<PullFrame> = vec![];
+    // open member Data sends made while live: (start, value)
+    let mut data_open: Vec<(usize, Val, usize)> = vec![];
+    let mut found = None;
+    walk(ex, |i, ev, stack, _| {
+        if found.is_some() {
+            return;
+        }
+        match ev {
+            Ev::Send(Actor::Probe(_), m) => {
+                if m.is_terminal() {
+                    p_over = true;
+                    for pf in pulls.iter_mut() {
+                        pf.ended_inside = true;
+                    }
+                } else if *m == M::Pull && !p_over {
+                    let eligible: Vec<u16> = subs.iter().enumerate().filter(|(_, s)| s.greeted_at.is_some() && !over(s)).map(|(k, _)| k as u16).collect();
+                    pulls.push(PullFrame { start: i, eligible, counts: Default::default(), ended_inside: false });
+                }
+            },
+            Ev::Ret(Actor::Probe(_)) => {
+                let Some(fr) = stack.last() else { return };
+                if let Some(pos) = pulls.iter().position(|p| p.start == fr.start) {
+                    let pf = pulls.remove(pos);
+                    for s in &pf.eligible {
+                        let c = pf.counts.get(s).copied().unwrap_or(0);
+                        if c != 1 && !(c == 0 && (pf.ended_inside || over(&subs[*s as usize]))) {
+                            found = Some(viol(spec, "pull-not-broadcast-exactly-once", i, format!("a sink Pull reached live member sub {s} {c} times")));
+                            return;
+                        }
+                    }
+                }
+            },
+            Ev::In(Actor::Probe(_), m) => match m {
+                M::Hs => {
+                    p_greeted = true;
+                    let ok = matches!(innermost_send(stack), Some(fr) if fr.msg == M::Hs && matches!(fr.actor, Actor::Sub(_))) && greetings == 1;
+                    if !ok {
+                        found = Some(viol(spec, "sink-not-greeted-by-first-member-greeting", i, format!("the sink was greeted outside of the first member greeting (member greetings so far: {greetings})")));
+                    }
+                },
+                M::Data(v) => {
+                    got.push(*v);
+                    let ok = matches!(innermost_puppet_send(stack), Some(fr) if fr.msg == M::Data(*v));
+                    if !ok {
+                        found = Some(viol(spec, "datum-not-delivered-during-its-own-delivery", i, format!("the sink received {v:?} outside of the member delivery of that datum")));
+                    }
+                },
+                M::Term => {
+                    p_term += 1;
+                    p_over = true;
+                    for pf in pulls.iter_mut() {
+                        pf.ended_inside = true;
+                    }
+                    let all_done = subs.len() == n && subs.iter().all(|s| s.sent_term);
+                    let inside = matches!(innermost_puppet_send(stack), Some(fr) if fr.msg == M::Term);
+                    if !(all_done && inside) || p_term > 1 {
+                        found = Some(viol(spec, "completion-at-wrong-time", i, format!("the sink was completed although not all {n} members have completed (or not inside the last completion)")));
+                    }
+                },
+                M::Err(_) => {
+                    p_over = true;
+                    for pf in pulls.iter_mut() {
+                        pf.ended_inside = true;
+                    }
+                },
+                M::Pull => {},
+            },
+            Ev::Send(Actor::Sub(s), m) => {
+                let su = *s as usize;
+                match m {
+                    M::Hs => {
+                        greetings += 1;
+                        subs[su].greeted_at = Some(i);
+                    },
+                    M::Data(v) => {
+                        if !p_over {
+                            sent_live.push(*v);
+                            data_open.push((i, *v, got.len()));
+                        }
+                    },
+                    M::Term => subs[su].sent_term = true,
+                    M::Err(_) => subs[su].sent_err = true,
+                    _ => {},
+                }
+            },
+            Ev::Ret(Actor::Sub(s)) => {
+                let Some(fr) = stack.last() else { return };
+                let su = *s as usize;
+                match fr.msg {
+                    M::Hs => {
+                        // (1) first greeting greets the sink; (5) greeting after the end is disposed at once
+                        let first = subs.iter().filter(|x| x.greeted_at.is_some()).count() == 1;
+                        if first && !p_greeted {
+                            found = Some(viol(spec, "sink-not-greeted-by-first-member-greeting", i, "the first member greeting returned but the sink has not been greeted".into()));
+                            return;
+                        }
+                        let was_over_at_greeting = {
+                            // output over before this greeting began?
+                            let mut o = false;
+                            for e in ex.trace[..fr.start].iter() {
+                                match e {
+                                    Ev::Send(Actor::Probe(_), m) if m.is_terminal() => o = true,
+                                    Ev::In(Actor::Probe(_), m) if m.is_terminal() => o = true,
+                                    _ => {},
+                                }
+                            }
+                            o
+                        };
+                        if was_over_at_greeting && !subs[su].stopped {
+                            found = Some(viol(spec, "late-greeter-not-disposed", i, format!("member sub {s} greeted after the output was over and was not disposed inside its greeting")));
+                        }
+                    },
+                    M::Data(_) => {
+                        if let Some(pos) = data_open.iter().position(|d| d.0 == fr.start) {
+                            let (_, v, _) = data_open.remove(pos);
+                            let c = got.iter().filter(|x| **x == v).count();
+                            if c != 1 {
+                                found = Some(viol(spec, "datum-not-delivered-exactly-once", i, format!("member datum {v:?} was delivered {c} times by the time its delivery returned")));
+                            }
+                        }
+                    },
+                    M::Term => {
+                        let all_done = subs.len() == n && subs.iter().all(|x| x.sent_term);
+                        if all_done && p_term != 1 && !sink_left_before(ex, i) {
+                            found = Some(viol(spec, "completion-not-delivered", i, format!("all {n} members have completed but the sink has {p_term} Terminate")));
+                        }
+                    },
+                    _ => {},
+                }
+            },
+            Ev::In(Actor::Sub(s), m) => {
+                if m.is_terminal() {
+                    subs[*s as usize].stopped = true;
+                }
+                if *m == M::Pull {
+                    if let Some(fr) = innermost_send(stack) {
+                        if let Some(pf) = pulls.iter_mut().find(|p| p.start == fr.start) {
+                            *pf.counts.entry(*s).or_insert(0) += 1;
+                            if !pf.eligible.contains(s) {
+                                found = Some(viol(spec, "pull-sent-to-member-not-live", i, format!("a sink Pull was relayed to member sub {s}, which had not greeted or had completed")));
+                            }
+                        }
+                    }
+                }
+            },
+            _ => {},
+        }
+    });
+    if found.is_none() && got != sent_live && ex.fault.is_none() && !ex.panicked {
+        return Some(viol(spec, "not-arrival-order-union", ex.trace.len().saturating_sub(1), format!("members sent {:?} while live, the sink received {:?}", sent_live, got)));
+    }
+    found
+}
+
+fn sink_left_before(ex: &Exec, at: usize) -> bool {
+    ex.trace[..at].iter().any(|e| match e {
+        Ev::Send(Actor::Probe(_), m) if m.is_terminal() => true,
+        Ev::In(Actor::Probe(_), M::Err(_)) => true,
+        _ => false,
+    })
+}
+
+/// C09: concat! runs members strictly one after another and carries demand across.
+pub fn c09(spec: &WorldSpec, ex: &Exec) -> Option<Viol> {
+    let n = spec.op.arity();
+    let mut p_over = false;
+    let mut p_term = 0u32;
+    let mut p_pulls = 0u32;
+    let mut p_data = 0u32;
+    let mut sent_live: Vec<Val> = vec![];
+    let mut got: Vec<Val> = vec![];
+    let mut subscribed: Vec<Option<u16>> = vec![None; n.max(1)];
+    // greeting frames: (start, sub, outstanding pull at start, pulls received inside)
+    let mut greet_open: Vec<(usize, u16, bool, u32)> = vec![];
+    let mut found = None;
+    walk(ex, |i, ev, stack, top| {
+        if found.is_some() {
+            return;
+        }
+        match ev {
+            Ev::Send(Actor::Probe(_), m) => {
+                if m.is_terminal() {
+                    p_over = true;
+                } else if *m == M::Pull {
+                    p_pulls += 1;
+                }
+            },
+            Ev::In(Actor::Probe(_), m) => match m {
+                M::Data(v) => {
+                    got.push(*v);
+                    p_data += 1;
+                },
+                M::Term => {
+                    p_term += 1;
+                    p_over = true;
+                    let last_done = n == 0 || matches!(innermost_puppet_send(stack), Some(fr) if fr.msg == M::Term && matches!(fr.actor, Actor::Sub(s) if ex.subs[s as usize].puppet as usize == n - 1));
+                    if !last_done || p_term > 1 {
+                        found = Some(viol(spec, "completion-at-wrong-time", i, "the sink was completed outside of the last member's completion".into()));
+                    }
+                },
+                M::Err(_) => p_over = true,
+                _ => {},
+            },
+            Ev::In(Actor::Sub(s), M::Hs) => {
+                let j = ex.subs[*s as usize].puppet as usize;
+                if p_over {
+                    found = Some(viol(spec, "member-subscribed-after-output-over", i, format!("member {j} was subscribed after an error or a disposal")));
+                    return;
+                }
+                if j < subscribed.len() {
+                    subscribed[j] = Some(*s);
+                }
+                if j == 0 {
+                    if !matches!(top, Some(EvId::Subscribe(_))) || stack.iter().any(|f| f.is_send) {
+                        found = Some(viol(spec, "member-subscribed-at-wrong-time", i, "member 0 was subscribed outside of the sink's subscription".into()));
+                    }
+                } else {
+                    let ok = matches!(innermost_puppet_send(stack), Some(fr) if fr.msg == M::Term && matches!(fr.actor, Actor::Sub(ps) if ex.subs[ps as usize].puppet as usize == j - 1));
+                    if !ok {
+                        found = Some(viol(spec, "member-subscribed-at-wrong-time", i, format!("member {j} was subscribed although member {} has not just completed", j - 1)));
+                    }
+                }
+            },
+            Ev::Send(Actor::Sub(s), m) => match m {
+                M::Data(v) => {
+                    if !p_over {
+                        sent_live.push(*v);
+                    }
+                },
+                M::Hs => {
+                    greet_open.push((i, *s, p_pulls > p_data && !p_over, 0));
+                },
+                _ => {},
+            },
+            Ev::In(Actor::Sub(s), M::Pull) => {
+                if let Some(fr) = innermost_send(stack) {
+                    if let Some(g) = greet_open.iter_mut().find(|g| g.0 == fr.start && g.1 == *s) {
+                        g.3 += 1;
+                    }
+                }
+            },
+            Ev::Ret(Actor::Sub(s)) => {
+                let Some(fr) = stack.last() else { return };
+                let j = ex.subs[*s as usize].puppet as usize;
+                match fr.msg {
+                    M::Hs => {
+                        if let Some(pos) = greet_open.iter().position(|g| g.0 == fr.start) {
+                            let (_, _, outstanding, pulls_inside) = greet_open.remove(pos);
+                            if j >= 1 && outstanding && pulls_inside == 0 {
+                                found = Some(viol(spec, "outstanding-pull-not-reissued", i, format!("the sink had an unanswered Pull when member {j} greeted, but member {j} was not pulled inside its greeting")));
+                            }
+                        }
+                    },
+                    M::Term => {
+                        let left = sink_left_before(ex, fr.start);
+                        if !left {
+                            if j + 1 < n {
+                                if subscribed[j + 1].is_none() && !p_over {
+                                    found = Some(viol(spec, "next-member-not-subscribed", i, format!("member {j} completed but member {} was not subscribed", j + 1)));
+                                }
+                            } else if p_term != 1 && !sink_left_before(ex, i) {
+                                found = Some(viol(spec, "completion-not-delivered", i, "the last member completed but the sink was not completed".into()));
+                            }
+                        }
+                    },
+                    _ => {},
+                }
+            },
+            _ => {},
+        }
+    });
+    if found.is_none() && ex.fault.is_none() && !ex.panicked {
+        if got != sent_live {
+            return Some(viol(spec, "not-the-concatenation", ex.trace.len().saturating_sub(1), format!("members sent {:?} while live, the sink received {:?}", sent_live, got)));
+        }
+        let tags: Vec<i64> = got.iter().map(|v| ival(v) / 10).collect();
+        if tags.windows(2).any(|w| w[0] > w[1]) {
+            return Some(viol(spec, "member-order-violated", ex.trace.len().saturating_sub(1), format!("the sink received {:?}", got)));
+        }
+    }
+    found
+}
+
+/// C10: combine! emits the latest value of every member, none before all have one.
+pub fn c10(spec: &WorldSpec, ex: &Exec) -> Option<Viol> {
+    let n = spec.op.arity();
+    let mut latest: Vec<Option<i64>> = vec![None; n];
+    let mut p_over = false;
+    let mut p_greeted = false;
+    let mut p_term = 0u32;
+    let mut greetings = 0usize;
+    let mut ended = vec![false; n];
+    let mut sub_stopped: Vec<bool> = vec![false; ex.subs.len()];
+    let mut sub_self_ended: Vec<bool> = vec![false; ex.subs.len()];
+    // open data frames: (start, expected tuple, tuples seen inside directly)
+    let mut data_open: Vec<(usize, Option<Val>, Vec<Val>)> = vec![];
+    struct PullFrame {
+        start: usize,
+        eligible: Vec<u16>,
+        counts: std::collections::HashMap<u16, u32>,
+        ended_inside: bool,
+    }
+    let mut pulls: Vec<PullFrame> = vec![];
+    let mut found = None;
+    walk(ex, |i, ev, stack, _| {
+        if found.is_some() {
+            return;
+        }
+        match ev {
+            Ev::Send(Actor::Probe(_), m) => {
+                if m.is_terminal() {
+                    p_over = true;
+                    for pf in pulls.iter_mut() {
+                        pf.ended_inside = true;
+                    }
+                } else if *m == M::Pull && !p_over {
+                    let eligible: Vec<u16> = (0..ex.subs.len()).filter(|s| !sub_stopped[*s] && !sub_self_ended[*s]).map(|s| s as u16).collect();
+                    pulls.push(PullFrame { start: i, eligible, counts: Default::default(), ended_inside: false });
+                }
+            },
+            Ev::Ret(Actor::Probe(_)) => {
+                let Some(fr) = stack.last() else { return };
+                if let Some(pos) = pulls.iter().position(|p| p.start == fr.start) {
+                    let pf = pulls.remove(pos);
+                    for s in &pf.eligible {
+                        let c = pf.counts.get(s).copied().unwrap_or(0);
+                        if c != 1 && !(c == 0 && (pf.ended_inside || sub_stopped[*s as usize] || sub_self_ended[*s as usize])) {
+                            found = Some(viol(spec, "pull-not-broadcast-exactly-once", i, format!("a sink Pull reached running member sub {s} {c} times")));
+                            return;
+                        }
+                    }
+                }
+            },
+            Ev::In(Actor::Sub(s), m) => {
+                if m.is_terminal() {
+                    sub_stopped[*s as usize] = true;
+                }
+                if *m == M::Pull {
+                    if let Some(fr) = innermost_send(stack) {
+                        if let Some(pf) = pulls.iter_mut().find(|p| p.start == fr.start) {
+                            *pf.counts.entry(*s).or_insert(0) += 1;
+                        }
+                    }
+                }
+            },
+            Ev::In(Actor::Probe(_), m) => match m {
+                M::Hs => {
+                    p_greeted = true;
+                    let ok = greetings == n && matches!(innermost_send(stack), Some(fr) if fr.msg == M::Hs && matches!(fr.actor, Actor::Sub(_)));
+                    // a member failing before all have greeted: the sink is greeted so that it can be failed
+                    let failing = matches!(innermost_send(stack), Some(fr) if matches!(fr.msg, M::Err(_)) && matches!(fr.actor, Actor::Sub(_)));
+                    if !ok && !failing {
+                        found = Some(viol(spec, "sink-greeted-before-all-members", i, format!("the sink was greeted after {greetings} of {n} member greetings")));
+                    }
+                },
+                M::Data(v) => {
+                    match innermost_puppet_send(stack) {
+                        Some(fr) if fr.msg.is_data() => {
+                            if let Some(d) = data_open.iter_mut().find(|d| d.0 == fr.start) {
+                                d.2.push(*v);
+                                if d.1 != Some(*v) {
+                                    found = Some(viol(spec, "wrong-tuple", i, format!("the sink received {v:?}, expected {:?} (latest values {:?})", d.1, latest)));
+                                }
+                            }
+                        },
+                        _ => {
+                            found = Some(viol(spec, "tuple-outside-member-delivery", i, format!("the sink received {v:?} while no member datum was being delivered")));
+                        },
+                    }
+                },
+                M::Term => {
+                    p_term += 1;
+                    p_over = true;
+                    for pf in pulls.iter_mut() {
+                        pf.ended_inside = true;
+                    }
+                    let all = ended.iter().all(|e| *e);
+                    let inside = matches!(innermost_puppet_send(stack), Some(fr) if fr.msg == M::Term);
+                    if !(all && inside) || p_term > 1 {
+                        found = Some(viol(spec, "completion-at-wrong-time", i, format!("the sink was completed although members ended = {:?}", ended)));
+                    }
+                },
+                M::Err(_) => {
+                    p_over = true;
+                    for pf in pulls.iter_mut() {
+                        pf.ended_inside = true;
+                    }
+                },
+                _ => {},
+            },
+            Ev::Send(Actor::Sub(s), m) => {
+                let j = ex.subs[*s as usize].puppet as usize;
+                match m {
+                    M::Hs => greetings += 1,
+                    M::Data(v) => {
+                        if !p_over && j < n {
+                            latest[j] = Some(ival(v));
+                            let exp = if latest.iter().all(|x| x.is_some()) {
+                                let mut a = [0i64; 3];
+                                for (k, x) in latest.iter().enumerate() {
+                                    a[k] = x.unwrap();
+                                }
+                                Some(Val::T(n as u8, a))
+                            } else {
+                                None
+                            };
+                            data_open.push((i, exp, vec![]));
+                        }
+                    },
+                    M::Term => {
+                        sub_self_ended[*s as usize] = true;
+                        if j < n {
+                            ended[j] = true;
+                        }
+                    },
+                    M::Err(_) => sub_self_ended[*s as usize] = true,
+                    _ => {},
+                }
+            },
+            Ev::Ret(Actor::Sub(_)) => {
+                let Some(fr) = stack.last() else { return };
+                match fr.msg {
+                    M::Hs => {
+                        if greetings == n && !p_greeted && !p_over {
+                            found = Some(viol(spec, "sink-not-greeted-after-all-members", i, "all members have greeted but the sink has not been greeted".into()));
+                        }
+                    },
+                    M::Data(_) => {
+                        if let Some(pos) = data_open.iter().position(|d| d.0 == fr.start) {
+                            let (_, exp, seen) = data_open.remove(pos);
+                            match exp {
+                                Some(t) => {
+                                    if seen.len() != 1 {
+                                        found = Some(viol(spec, "not-exactly-one-tuple-per-datum", i, format!("a member datum produced {} tuples, expected exactly {t:?}", seen.len())));
+                                    }
+                                },
+                                None => {
+                                    if !seen.is_empty() {
+                                        found = Some(viol(spec, "emission-before-all-members-have-a-value", i, format!("tuples {seen:?} were emitted although latest = {latest:?}")));
+                                    }
+                                },
+                            }
+                        }
+                    },
+                    M::Term => {
+                        if ended.iter().all(|e| *e) && p_term != 1 && !sink_left_before(ex, i) && p_greeted {
+                            found = Some(viol(spec, "completion-not-delivered", i, "all members have ended but the sink was not completed".into()));
+                        }
+                    },
+                    _ => {},
+                }
+            },
+            _ => {},
+        }
+    });
+    found
+}
+
+/// C11: flatten has switch semantics.
+pub fn c11(spec: &WorldSpec, ex: &Exec) -> Option<Viol> {
+    let ns = ex.subs.len();
+    let is_outer = |s: u16| ex.subs[s as usize].puppet == 0;
+    let mut alive = vec![false; ns]; // greeted, not ended, not stopped
+    let mut stops = vec![0u32; ns];
+    let mut outer_done = false;
+    let mut outer_sub: Option<u16> = None;
+    let mut latest_inner: Option<u16> = None;
+    let mut p_over = false;
+    let mut p_term = 0u32;
+    // outer data frames: (start, inner puppet id, inner subs created directly)
+    let mut emit_open: Vec<(usize, u8, Vec<u16>)> = vec![];
+    // inner greeting frames: (start, sub, direct pulls)
+    let mut greet_open: Vec<(usize, u16, u32)> = vec![];
+    // probe pull frames: (start, expected recipient, recipients)
+    let mut pull_open: Vec<(usize, Option<u16>, Vec<u16>, bool)> = vec![];
+    let mut found = None;
+    walk(ex, |i, ev, stack, _| {
+        if found.is_some() {
+            return;
+        }
+        let active_inner = |alive: &Vec<bool>| -> Option<u16> { (0..ns as u16).rev().find(|s| !is_outer(*s) && alive[*s as usize]) };
+        match ev {
+            Ev::Send(Actor::Probe(_), m) => {
+                if m.is_terminal() {
+                    p_over = true;
+                    for p in pull_open.iter_mut() {
+                        p.3 = true;
+                    }
+                } else if *m == M::Pull && !p_over {
+                    let exp = match active_inner(&alive) {
+                        Some(s) => Some(s),
+                        None => outer_sub.filter(|s| alive[*s as usize]),
+                    };
+                    pull_open.push((i, exp, vec![], false));
+                }
+            },
+            Ev::Ret(Actor::Probe(_)) => {
+                let Some(fr) = stack.last() else { return };
+                if let Some(pos) = pull_open.iter().position(|p| p.0 == fr.start) {
+                    let (_, exp, rec, _) = pull_open.remove(pos);
+                    let want: Vec<u16> = exp.into_iter().collect();
+                    if rec != want {
+                        found = Some(viol(spec, "pull-misrouted", i, format!("a sink Pull was received by subs {rec:?}, expected {want:?} (active inner if any, else the outer)")));
+                    }
+                }
+            },
+            Ev::In(Actor::Sub(s), m) => {
+                let su = *s as usize;
+                match m {
+                    M::Hs => {
+                        if is_outer(*s) {
+                            outer_sub = Some(*s);
+                        } else {
+                            // new inner subscription: must be directly inside an outer emission of that puppet
+                            match innermost_puppet_send(stack) {
+                                Some(fr) if matches!(fr.msg, M::Data(Val::Src(j)) if j == ex.subs[su].puppet) => {
+                                    if let Some(e) = emit_open.iter_mut().find(|e| e.0 == fr.start) {
+                                        e.2.push(*s);
+                                    }
+                                },
+                                _ => {
+                                    found = Some(viol(spec, "inner-subscribed-outside-its-emission", i, format!("inner sub {s} was subscribed outside of the outer delivery that emitted it")));
+                                    return;
+                                },
+                            }
+                            // the previously active inner must have been disposed exactly once by now
+                            if let Some(prev) = active_inner(&alive) {
+                                found = Some(viol(spec, "previous-inner-not-disposed", i, format!("inner sub {s} is being subscribed while inner sub {prev} is still active (stops received: {})", stops[prev as usize])));
+                                return;
+                            }
+                            latest_inner = Some(*s);
+                        }
+                    },
+                    M::Pull => {
+                        if let Some(fr) = innermost_send(stack) {
+                            if let Some(g) = greet_open.iter_mut().find(|g| g.0 == fr.start && g.1 == *s) {
+                                g.2 += 1;
+                            }
+                            if let Some(p) = pull_open.iter_mut().find(|p| p.0 == fr.start) {
+                                p.2.push(*s);
+                            }
+                        }
+                    },
+                    M::Term | M::Err(_) => {
+                        stops[su] += 1;
+                        alive[su] = false;
+                    },
+                    _ => {},
+                }
+            },
+            Ev::Send(Actor::Sub(s), m) => {
+                let su = *s as usize;
+                match m {
+                    M::Hs => {
+                        alive[su] = true;
+                        if !is_outer(*s) {
+                            greet_open.push((i, *s, 0));
+                        }
+                    },
+                    M::Data(Val::Src(j)) => {
+                        if !p_over {
+                            emit_open.push((i, *j, vec![]));
+                        }
+                    },
+                    M::Term => {
+                        alive[su] = false;
+                        if is_outer(*s) {
+                            outer_done = true;
+                        }
+                    },
+                    M::Err(_) => alive[su] = false,
+                    _ => {},
+                }
+            },
+            Ev::Ret(Actor::Sub(s)) => {
+                let Some(fr) = stack.last() else { return };
+                match fr.msg {
+                    M::Hs => {
+                        if let Some(pos) = greet_open.iter().position(|g| g.0 == fr.start) {
+                            let (_, gs, direct) = greet_open.remove(pos);
+                            if direct != 1 {
+                                found = Some(viol(spec, "inner-not-pulled-once-on-greeting", i, format!("inner sub {gs} received {direct} Pulls from flatten inside its greeting, expected exactly 1")));
+                            }
+                        }
+                    },
+                    M::Data(Val::Src(j)) => {
+                        if let Some(pos) = emit_open.iter().position(|e| e.0 == fr.start) {
+                            let (_, _, created) = emit_open.remove(pos);
+                            if created.len() != 1 {
+                                found = Some(viol(spec, "inner-not-subscribed-exactly-once", i, format!("the outer emitted inner puppet {j}; it was subscribed {} times inside that delivery", created.len())));
+                            }
+                        }
+                    },
+                    M::Term => {
+                        let cond = outer_done && active_inner(&alive).is_none();
+                        let _ = s;
+                        if cond && p_term != 1 && !sink_left_before(ex, i) {
+                            found = Some(viol(spec, "completion-not-delivered", i, "the outer has completed and no inner is active, but the sink was not completed".into()));
+                        }
+                    },
+                    _ => {},
+                }
+            },
+            Ev::In(Actor::Probe(_), m) => match m {
+                M::Data(v) => {
+                    // must come from the newest inner subscription
+                    let from = match innermost_puppet_send(stack) {
+                        Some(fr) if fr.msg == M::Data(*v) => match fr.actor {
+                            Actor::Sub(s) => Some(s),
+                            _ => None,
+                        },
+                        _ => None,
+                    };
+                    if from.is_none() || from != latest_inner {
+                        found = Some(viol(spec, "datum-not-from-latest-inner", i, format!("the sink received {v:?} from sub {from:?} but the latest inner is sub {latest_inner:?}")));
+                    }
+                },
+                M::Term => {
+                    p_term += 1;
+                    p_over = true;
+                    for p in pull_open.iter_mut() {
+                        p.3 = true;
+                    }
+                    let cond = outer_done && active_inner(&alive).is_none();
+                    let inside = matches!(innermost_puppet_send(stack), Some(fr) if fr.msg == M::Term);
+                    if !(cond && inside) || p_term > 1 {
+                        found = Some(viol(spec, "completion-at-wrong-time", i, format!("the sink was completed (outer completed: {outer_done}, active inner: {:?})", active_inner(&alive))));
+                    }
+                },
+                M::Err(_) => {
+                    p_over = true;
+                },
+                _ => {},
+            },
+            _ => {},
+        }
+    });
+    found
+}
+
+/// C12: share keeps one reference-counted upstream subscription.
+pub fn c12(spec: &WorldSpec, ex: &Exec) -> Option<Viol> {
+    let np = ex.probes.len();
+    let ns = ex.subs.len();
+    let mut attached = vec![false; np];
+    let mut sub_alive = vec![false; ns]; // subscribed (even before greeting) and not over
+    let mut found = None;
+    // open attach frames: (probe, attached-empty at start, new subs inside)
+    let mut attach: Option<(u8, bool, u32)> = None;
+    // open source sends: (start, msg, attached snapshot, received)
+    let mut send_open: Vec<(usize, M, Vec<u8>, Vec<u8>)> = vec![];
+    // open detach frames: (start, probe, expect upstream stop, stops inside)
+    let mut detach_open: Vec<(usize, u8, bool, u32)> = vec![];
+    walk(ex, |i, ev, stack, _| {
+        if found.is_some() {
+            return;
+        }
+        match ev {
+            Ev::Top(e) => {
+                // close the previous attach frame
+                if let Some((p, empty, newsubs)) = attach.take() {
+                    if let Some(v) = check_attach(spec, i, p, empty, newsubs) {
+                        found = Some(v);
+                        return;
+                    }
+                }
+                if let EvId::Subscribe(p) = e {
+                    let empty = !attached.iter().any(|a| *a);
+                    attach = Some((*p, empty, 0));
+                }
+            },
+            Ev::In(Actor::Sub(s), m) => {
+                let su = *s as usize;
+                match m {
+                    M::Hs => {
+                        if sub_alive.iter().any(|a| *a) {
+                            found = Some(viol(spec, "two-live-upstream-subscriptions", i, "a second upstream subscription was started while one is alive".into()));
+                            return;
+                        }
+                        sub_alive[su] = true;
+                        match attach.as_mut() {
+                            Some(a) if stack.is_empty() => a.2 += 1,
+                            _ => {
+                                found = Some(viol(spec, "upstream-subscribed-outside-attach", i, "upstream was subscribed outside of a sink attaching".into()));
+                            },
+                        }
+                    },
+                    M::Term | M::Err(_) => {
+                        sub_alive[su] = false;
+                        match innermost_send(stack) {
+                            Some(fr) => {
+                                if let Some(d) = detach_open.iter_mut().find(|d| d.0 == fr.start) {
+                                    d.3 += 1;
+                                } else {
+                                    found = Some(viol(spec, "upstream-disposed-outside-detach", i, "upstream was disposed outside of a sink detaching".into()));
+                                }
+                            },
+                            None => {
+                                found = Some(viol(spec, "upstream-disposed-outside-detach", i, "upstream was disposed outside of a sink detaching".into()));
+                            },
+                        }
+                    },
+                    _ => {},
+                }
+            },
+            Ev::In(Actor::Probe(p), m) => {
+                let pu = *p as usize;
+                match m {
+                    M::Hs => attached[pu] = true,
+                    M::Data(_) | M::Term | M::Err(_) => {
+                        match innermost_puppet_send(stack) {
+                            Some(fr) if fr.msg == *m => {
+                                if let Some(so) = send_open.iter_mut().find(|x| x.0 == fr.start) {
+                                    so.3.push(*p);
+                                }
+                            },
+                            _ => {
+                                found = Some(viol(spec, "delivery-outside-source-emission", i, format!("probe {p} received {m:?} outside of the source's delivery of it")));
+                                return;
+                            },
+                        }
+                        if m.is_terminal() {
+                            attached[pu] = false;
+                        }
+                    },
+                    _ => {},
+                }
+            },
+            Ev::Send(Actor::Probe(p), m) if m.is_terminal() => {
+                let pu = *p as usize;
+                let was = attached[pu];
+                attached[pu] = false;
+                let empties = was && !attached.iter().any(|a| *a);
+                let upstream_alive = sub_alive.iter().any(|a| *a);
+                detach_open.push((i, *p, empties && upstream_alive, 0));
+            },
+            Ev::Ret(Actor::Probe(_)) => {
+                let Some(fr) = stack.last() else { return };
+                if let Some(pos) = detach_open.iter().position(|d| d.0 == fr.start) {
+                    let (_, p, expect, got) = detach_open.remove(pos);
+                    if expect && got != 1 {
+                        found = Some(viol(spec, "upstream-not-disposed-by-last-detach", i, format!("probe {p} was the last attached sink; upstream received {got} stop messages inside its detach")));
+                    } else if !expect && got != 0 {
+                        found = Some(viol(spec, "upstream-disposed-while-sinks-attached", i, format!("probe {p} detached while other sinks were attached (or upstream was gone), yet upstream received {got} stop messages")));
+                    }
+                }
+            },
+            Ev::Send(Actor::Sub(s), m) => {
+                let su = *s as usize;
+                if m.is_terminal() {
+                    sub_alive[su] = false;
+                }
+                if m.is_data() || m.is_terminal() {
+                    let snap: Vec<u8> = (0..np as u8).filter(|p| attached[*p as usize]).collect();
+                    send_open.push((i, *m, snap, vec![]));
+                }
+            },
+            Ev::Ret(Actor::Sub(_)) => {
+                let Some(fr) = stack.last() else { return };
+                if let Some(pos) = send_open.iter().position(|x| x.0 == fr.start) {
+                    let (_, m, snap, mut got) = send_open.remove(pos);
+                    got.sort();
+                    if got != snap {
+                        found = Some(viol(spec, "fan-out-not-exactly-once", i, format!("the source sent {m:?} while probes {snap:?} were attached; it was delivered to {got:?}")));
+                    }
+                }
+            },
+            _ => {},
+        }
+    });
+    if found.is_none() && ex.fault.is_none() && !ex.panicked {
+        if let Some((p, empty, newsubs)) = attach.take() {
+            found = check_attach(spec, ex.trace.len(), p, empty, newsubs);
+        }
+    }
+    found
+}
+
+fn check_attach(spec: &WorldSpec, at: usize, p: u8, empty: bool, newsubs: u32) -> Option<Viol> {
+    if empty && newsubs != 1 {
+        return Some(viol(spec, "no-fresh-upstream-subscription", at.saturating_sub(1), format!("probe {p} attached while no sink was attached; {newsubs} upstream subscriptions were started")));
+    }
+    if !empty && newsubs != 0 {
+        return Some(viol(spec, "extra-upstream-subscription", at.saturating_sub(1), format!("probe {p} attached while sinks were attached; {newsubs} upstream subscriptions were started")));
+    }
+    None
+}
+
+/// C14: demand conservation over pullable upstreams.
+pub fn c14(spec: &WorldSpec, ex: &Exec) -> Option<Viol> {
+    let mut pulls = 0u32;
+    let mut data = 0u32;
+    let mut over = false;
+    let q = quiescent_points(ex);
+    let mut qi = 0;
+    let mut pending: Vec<u32> = vec![0; ex.subs.len()];
+    let mut found = None;
+    for (i, ev) in ex.trace.iter().enumerate() {
+        while qi < q.len() && q[qi] <= i {
+            if q[qi] == i && !over && pending.iter().all(|p| *p == 0) && data != pulls {
+                found = Some(viol(spec, "pull-not-answered", i.saturating_sub(1), format!("at quiescence the sink has sent {pulls} Pulls and received {data} Data, no upstream answer is pending")));
+            }
+            qi += 1;
+        }
+        if found.is_some() {
+            break;
+        }
+        match ev {
+            Ev::Defer(s) => pending[*s as usize] += 1,
+            Ev::Top(EvId::SubAnsData(s)) | Ev::Top(EvId::SubAnsTerm(s)) | Ev::Top(EvId::SubAnsErr(s)) => {
+                pending[*s as usize] = pending[*s as usize].saturating_sub(1)
+            },
+            // a stopped or ended source owes nothing any more
+            Ev::In(Actor::Sub(s), m) if m.is_terminal() => pending[*s as usize] = 0,
+            Ev::Send(Actor::Sub(s), m) if m.is_terminal() => pending[*s as usize] = 0,
+            Ev::Send(Actor::Probe(_), M::Pull) => pulls += 1,
+            Ev::Send(Actor::Probe(_), m) if m.is_terminal() => over = true,
+            Ev::In(Actor::Probe(_), M::Data(_)) => {
+                data += 1;
+                if data > pulls {
+                    found = Some(viol(spec, "more-data-than-pulls", i, format!("the sink has received {data} Data but sent only {pulls} Pulls")));
+                }
+            },
+            Ev::In(Actor::Probe(_), m) if m.is_terminal() => over = true,
+            _ => {},
+        }
+    }
+    if found.is_none() && q.last() == Some(&ex.trace.len()) && !over && pending.iter().all(|p| *p == 0) && data != pulls {
+        found = Some(viol(spec, "pull-not-answered", ex.trace.len().saturating_sub(1), format!("at quiescence the sink has sent {pulls} Pulls and received {data} Data, no upstream answer is pending")));
+    }
+    found
+}
+
+/// C15: from_iter is lazy, ordered, one item per Pull, never re-entrant.
+pub fn c15(spec: &WorldSpec, ex: &Exec) -> Option<Viol> {
+    let (xs, unbounded): (Vec<i64>, bool) = match &spec.op {
+        Op::FromIter(xs) => (xs.clone(), false),
+        Op::FromIterUnbounded => ((1..=200).collect(), true),
+        _ => panic!("c15 on a non-from_iter world"),
+    };
+    let _ = unbounded;
+    let mut pulls = 0usize;
+    let mut data: Vec<i64> = vec![];
+    let mut terms = 0usize;
+    let mut calls = 0usize;
+    let mut disposed = false;
+    let mut found = None;
+    let q = quiescent_points(ex);
+    let mut qi = 0;
+    walk(ex, |i, ev, stack, _| {
+        if found.is_some() {
+            return;
+        }
+        while qi < q.len() && q[qi] <= i {
+            if q[qi] == i {
+                if let Some(v) = c15_quiescent(spec, i, &xs, pulls, &data, terms, calls, disposed) {
+                    found = Some(v);
+                    return;
+                }
+            }
+            qi += 1;
+        }
+        match ev {
+            Ev::Send(Actor::Probe(_), M::Pull) => pulls += 1,
+            Ev::Send(Actor::Probe(_), m) if m.is_terminal() => disposed = true,
+            Ev::Call(CALL_NEXT, _) => {
+                calls += 1;
+                if calls > pulls {
+                    found = Some(viol(spec, "iterator-advanced-without-pull", i, format!("{calls} next() calls but only {pulls} Pulls")));
+                }
+            },
+            Ev::In(Actor::Probe(_), m) => {
+                // emission deliveries (Data / Terminate) never nest; the greeting is not an emission, so
+                // a sink pulling from inside its handshake handler is served inside that call (depth 2,
+                // independent of the number of items)
+                if stack.iter().any(|f| !f.is_send && matches!(f.actor, Actor::Probe(_)) && f.msg != M::Hs) {
+                    found = Some(viol(spec, "re-entrant-delivery", i, format!("delivery of {m:?} began while an earlier delivery to the same sink was in progress")));
+                    return;
+                }
+                match m {
+                    M::Data(v) => {
+                        data.push(ival(v));
+                        if data.len() > xs.len() || data[..] != xs[..data.len()] {
+                            found = Some(viol(spec, "not-a-prefix-in-order", i, format!("received {:?}, iterator yields {:?}", data, &xs[..xs.len().min(4)])));
+                        }
+                    },
+                    M::Term => {
+                        terms += 1;
+                        if terms > 1 || data.len() != xs.len() {
+                            found = Some(viol(spec, "completion-at-wrong-time", i, format!("Terminate #{terms} after {} of {} items", data.len(), xs.len())));
+                        }
+                    },
+                    _ => {},
+                }
+            },
+            _ => {},
+        }
+    });
+    if found.is_none() && q.last() == Some(&ex.trace.len()) {
+        found = c15_quiescent(spec, ex.trace.len(), &xs, pulls, &data, terms, calls, disposed);
+    }
+    found
+}
+
+#[allow(clippy::too_many_arguments)]
+fn c15_quiescent(spec: &WorldSpec, at: usize, xs: &[i64], pulls: usize, data: &[i64], terms: usize, calls: usize, disposed: bool) -> Option<Viol> {
+    if calls != data.len() + terms {
+        return Some(viol(spec, "iterator-calls-mismatch", at.saturating_sub(1), format!("{calls} next() calls for {} items and {terms} completion", data.len())));
+    }
+    if !disposed {
+        let want_data = pulls.min(xs.len());
+        let want_term = usize::from(pulls > xs.len());
+        if data.len() != want_data || terms != want_term {
+            return Some(viol(spec, "not-one-item-per-pull", at.saturating_sub(1), format!("after {pulls} Pulls on {} items: {} Data and {terms} Terminate, expected {want_data} and {want_term}", xs.len().min(99), data.len())));
+        }
+    }
+    None
+}
+
+/// C16: interval ticks 0,1,2,... once per period per subscription and is silent after disposal.
+pub fn c16(spec: &WorldSpec, ex: &Exec) -> Option<Viol> {
+    let period = match &spec.op {
+        Op::Interval(ms) => *ms,
+        _ => panic!("c16 on a non-interval world"),
+    };
+    let np = ex.probes.len();
+    let mut task_owner: Vec<Option<u8>> = vec![];
+    let mut refused: Vec<Option<bool>> = vec![None; np]; // Some(kind ok?) when spawn refused
+    let mut next_val = vec![0i64; np];
+    let mut disposed = vec![false; np];
+    let mut greeted = vec![false; np];
+    let mut errs = vec![0u32; np];
+    let mut cur_top: Option<EvId> = None;
+    let mut delivered_in_top = vec![0u32; np];
+    let mut disposed_at_top_start = vec![false; np];
+    let mut found = None;
+    let check_top_end = |at: usize, cur_top: Option<EvId>, task_owner: &Vec<Option<u8>>, delivered: &Vec<u32>, disposed_start: &Vec<bool>| -> Option<Viol> {
+        match cur_top {
+            Some(EvId::Fire(t)) => {
+                let owner = task_owner.get(t as usize).copied().flatten()?;
+                let o = owner as usize;
+                let want = if disposed_start[o] { 0 } else { 1 };
+                if delivered[o] != want {
+                    return Some(viol(spec, "not-one-tick-per-period", at.saturating_sub(1), format!("a period elapsed for the task of probe {owner} (disposed before: {}); it received {} numbers", disposed_start[o], delivered[o])));
+                }
+                None
+            },
+            _ => None,
+        }
+    };
+    for (i, ev) in ex.trace.iter().enumerate() {
+        match ev {
+            Ev::Top(e) => {
+                if let Some(v) = check_top_end(i, cur_top, &task_owner, &delivered_in_top, &disposed_at_top_start) {
+                    found = Some(v);
+                    break;
+                }
+                cur_top = Some(*e);
+                delivered_in_top = vec![0; np];
+                disposed_at_top_start = disposed.clone();
+            },
+            Ev::Spawn(t, ok) => {
+                let owner = match cur_top {
+                    Some(EvId::Subscribe(p)) => Some(p),
+                    _ => None,
+                };
+                if *ok {
+                    while task_owner.len() <= *t as usize {
+                        task_owner.push(None);
+                    }
+                    task_owner[*t as usize] = owner;
+                } else if let Some(p) = owner {
+                    refused[p as usize] = Some(true);
+                }
+            },
+            Ev::Sleep(_, ms) => {
+                if *ms != period {
+                    found = Some(viol(spec, "wrong-period", i, format!("sleep({ms} ms) requested, period is {period} ms")));
+                    break;
+                }
+            },
+            Ev::Send(Actor::Probe(p), m) if m.is_terminal() => disposed[*p as usize] = true,
+            Ev::In(Actor::Probe(p), m) => {
+                let pu = *p as usize;
+                match m {
+                    M::Hs => {
+                        greeted[pu] = true;
+                        if refused[pu].is_some() {
+                            found = Some(viol(spec, "greeted-although-refused", i, format!("probe {p}: spawn failed but the sink was greeted")));
+                        }
+                    },
+                    M::Data(v) => {
+                        if refused[pu].is_some() {
+                            found = Some(viol(spec, "data-although-refused", i, format!("probe {p}: spawn failed but the sink received {v:?}")));
+                            break;
+                        }
+                        let own_fire = matches!(cur_top, Some(EvId::Fire(t)) if task_owner.get(t as usize).copied().flatten() == Some(*p));
+                        if !own_fire {
+                            found = Some(viol(spec, "tick-outside-own-timer", i, format!("probe {p} received {v:?} during {cur_top:?}")));
+                            break;
+                        }
+                        if ival(v) != next_val[pu] {
+                            found = Some(viol(spec, "wrong-counter-value", i, format!("probe {p} received {v:?}, expected {}", next_val[pu])));
+                            break;
+                        }
+                        next_val[pu] += 1;
+                        delivered_in_top[pu] += 1;
+                        if disposed_at_top_start[pu] {
+                            found = Some(viol(spec, "tick-after-disposal", i, format!("probe {p} received {v:?} at a tick after its disposal")));
+                            break;
+                        }
+                    },
+                    M::Err(id) => {
+                        errs[pu] += 1;
+                        let kind_ok = *id >= 1000 && {
+                            // k-th refusal error must be the k-th injected failure kind
+                            let kinds: Vec<u8> = ex.choices.iter().filter(|c| matches!(c.what, What::SpawnRes(_))).map(|c| c.menu[c.pick as usize]).filter(|k| *k != opt::OK).collect();
+                            let k = (*id - 1000) as usize;
+                            let text = ex.foreign_errs.get(k).cloned().unwrap_or_default().to_lowercase();
+                            match kinds.get(k) {
+                                Some(&opt::FAIL_SPAWN) => text.contains("spawn"),
+                                Some(&opt::FAIL_CLOSED) => text.contains("closed"),
+                                _ => false,
+                            }
+                        };
+                        if refused[pu].is_none() || errs[pu] > 1 || !kind_ok || greeted[pu] {
+                            found = Some(viol(spec, "unexpected-error", i, format!("probe {p} received Err({id}) (spawn refused: {:?})", refused[pu])));
+                            break;
+                        }
+                    },
+                    M::Term => {
+                        found = Some(viol(spec, "unexpected-terminate", i, format!("probe {p} received Terminate from interval")));
+                        break;
+                    },
+                    _ => {},
+                }
+            },
+            _ => {},
+        }
+    }
+    if found.is_none() && ex.fault.is_none() && !ex.panicked {
+        found = check_top_end(ex.trace.len(), cur_top, &task_owner, &delivered_in_top, &disposed_at_top_start);
+        if found.is_none() {
+            for p in 0..np {
+                if refused[p].is_some() && errs[p] != 1 {
+                    found = Some(viol(spec, "refusal-not-reported", ex.trace.len().saturating_sub(1), format!("probe {p}: spawn failed but the sink received {} Errors", errs[p])));
+                }
+            }
+        }
+    }
+    let _ = Pred::All;
+    found
+}
